@@ -20,7 +20,7 @@ from typing import Any, Callable, Dict, Iterable, List, Optional, Tuple
 
 VERIF = Path(__file__).resolve().parent.parent
 EVIDENCE_DIR = VERIF / "evidence"
-REPLAY_DIR = EVIDENCE_DIR / "replay"
+REPLAY_DIR = Path(os.environ.get("SA_REPLAY_DIR") or (EVIDENCE_DIR / "replay"))
 KNOWN_FILE = VERIF / "known_findings.json"
 PKG = "pyimpspec"
 MODULE_FLOOR = 120  # 126 modules on the pinned tree
